@@ -831,7 +831,10 @@ class MemoryPathIO(AbstractPathIO):
 
     @universal_exception
     async def rename(self, source, destination):
-        if source != destination:
+        if source == destination:
+            if self.get_node(source) is None:
+                raise FileNotFoundError
+        else:
             sparent = self.get_node(source.parent)
             dparent = self.get_node(destination.parent)
             snode = self.get_node(source)
